@@ -301,6 +301,124 @@ fn pad_code_entry(bytes: &[u8], k: usize, n: usize) -> Option<Vec<u8>> {
     Some(out)
 }
 
+/// A module made for contention on the emit-time index maps: several
+/// memories, tables, globals, passive data and element segments and types,
+/// and many functions that each refer, hundreds of times, to "their" entity
+/// of every kind (function f uses entity f mod count, now and then a
+/// neighbour's), so that threads encoding different functions look up
+/// different ids of the same index space at the same time.
+fn contention_module(ch: &mut Ch) -> (Vec<u8>, usize) {
+    use wasm_encoder as we;
+    let n_mem = 2 + ch.below(4) as u32;
+    let n_tab = 2 + ch.below(3) as u32;
+    let n_glob = 2 + ch.below(4) as u32;
+    let n_data = 2 + ch.below(3) as u32;
+    let n_elem = 2 + ch.below(3) as u32;
+    let n_funcs = 24 + ch.below(56) as u32;
+    let reps = 150 + ch.below(500);
+    let mut m = we::Module::new();
+    let mut t = we::TypeSection::new();
+    t.function([], []);
+    t.function([we::ValType::I32], []);
+    t.function([we::ValType::I64], []);
+    t.function([we::ValType::F32], []);
+    m.section(&t);
+    let mut f = we::FunctionSection::new();
+    for _ in 0..n_funcs {
+        f.function(0);
+    }
+    m.section(&f);
+    let mut tabs = we::TableSection::new();
+    for i in 0..n_tab {
+        tabs.table(we::TableType { element_type: we::RefType::FUNCREF, table64: false, minimum: 4 + i as u64, maximum: None, shared: false });
+    }
+    m.section(&tabs);
+    let mut mems = we::MemorySection::new();
+    for i in 0..n_mem {
+        mems.memory(we::MemoryType { minimum: 1 + i as u64, maximum: None, memory64: false, shared: false, page_size_log2: None });
+    }
+    m.section(&mems);
+    let mut globs = we::GlobalSection::new();
+    for i in 0..n_glob {
+        globs.global(we::GlobalType { val_type: we::ValType::I32, mutable: true, shared: false }, &we::ConstExpr::i32_const(i as i32));
+    }
+    m.section(&globs);
+    let mut ex = we::ExportSection::new();
+    for i in 0..n_funcs {
+        ex.export(&format!("f{}", i), we::ExportKind::Func, i);
+    }
+    m.section(&ex);
+    let mut el = we::ElementSection::new();
+    for i in 0..n_elem {
+        el.passive(we::Elements::Functions(&[i % n_funcs, (i + 1) % n_funcs]));
+    }
+    m.section(&el);
+    m.section(&we::DataCountSection { count: n_data });
+    let mut code = we::CodeSection::new();
+    for fi in 0..n_funcs {
+        let mut body = we::Function::new([]);
+        // function sizes differ (the emitter sorts by size)
+        let n = reps / 2 + (fi as usize * 37) % (reps / 2 + 1);
+        for j in 0..n {
+            let stray = if j % 23 == 0 { 1 } else { 0 };
+            let k = fi + stray;
+            use we::Instruction as I;
+            match j % 8 {
+                0 => {
+                    body.instruction(&I::I32Const(0));
+                    body.instruction(&I::I32Load8U(we::MemArg { offset: 0, align: 0, memory_index: k % n_mem }));
+                    body.instruction(&I::Drop);
+                }
+                1 => {
+                    body.instruction(&I::GlobalGet(k % n_glob));
+                    body.instruction(&I::GlobalSet(k % n_glob));
+                }
+                2 => {
+                    body.instruction(&I::TableSize(k % n_tab));
+                    body.instruction(&I::Drop);
+                }
+                3 => {
+                    body.instruction(&I::I32Const(0));
+                    body.instruction(&I::I32Const(0));
+                    body.instruction(&I::I32Const(0));
+                    body.instruction(&I::MemoryInit { mem: k % n_mem, data_index: (k / 2) % n_data });
+                }
+                4 => {
+                    body.instruction(&I::I32Const(0));
+                    body.instruction(&I::I32Const(0));
+                    body.instruction(&I::I32Const(0));
+                    body.instruction(&I::TableInit { elem_index: (k / 3) % n_elem, table: k % n_tab });
+                }
+                5 => {
+                    match k % 3 {
+                        0 => body.instruction(&I::I32Const(1)),
+                        1 => body.instruction(&I::I64Const(1)),
+                        _ => body.instruction(&I::F32Const(1.0)),
+                    };
+                    body.instruction(&I::I32Const(0));
+                    body.instruction(&I::CallIndirect { type_index: 1 + k % 3, table_index: (k / 5) % n_tab });
+                }
+                6 => {
+                    body.instruction(&I::Call((k * 7 + 1) % n_funcs));
+                }
+                _ => {
+                    body.instruction(&I::MemorySize(k % n_mem));
+                    body.instruction(&I::Drop);
+                }
+            }
+        }
+        body.instruction(&we::Instruction::End);
+        code.function(&body);
+    }
+    m.section(&code);
+    let mut data = we::DataSection::new();
+    for i in 0..n_data {
+        data.passive(vec![i as u8; 3 + i as usize]);
+    }
+    m.section(&data);
+    (m.finish(), n_funcs as usize)
+}
+
 fn materialise(input: &Input) -> Option<(Vec<u8>, String, usize)> {
     match input {
         Input::Choices { gen, bytes } => {
@@ -346,6 +464,13 @@ fn materialise(input: &Input) -> Option<(Vec<u8>, String, usize)> {
                     b = p;
                     tag.push_str("+32KiB-body");
                 }
+            }
+            // one case in sixteen is replaced by a module made for contention
+            // on the emit-time index maps
+            if n_mut == 0 && bytes.get(4).map(|x| x % 16 == 9).unwrap_or(false) {
+                let mut cch = Ch::new(&rest);
+                let (m, nf) = contention_module(&mut cch);
+                return Some((m, format!("gen:{}+index-map-contention", gen), nf));
             }
             // one case in sixteen is replaced by a module whose only function
             // nests 100 000 blocks (worker threads have small stacks)
@@ -415,6 +540,9 @@ pub fn check(ctx: &Ctx, input: &Input) -> CaseResult {
     }
     if origin.contains("+32KiB-body") {
         out.label("input:function-body>32KiB");
+    }
+    if origin.contains("+index-map-contention") {
+        out.label("input:index-map-contention");
     }
     // inputs with a very large function first go through a child process of
     // the parallel build: if that build dies (stack overflow, abort) where the
